@@ -237,6 +237,11 @@ impl C13 {
             if h.to_string() != b.to_string() || h.get_year().get_index() != b.get_year().get_index() || h.get_month().get_index() != b.get_month().get_index() {
               return Some((ymdhms(&t), h.to_string(), b.to_string()));
             }
+            // derived views of the listed slot as well (a refusal must be a refusal on both)
+            let (x, z) = (guard(|| format!("{} {}", h.get_nine_star(), h.get_twelve_star())), guard(|| format!("{} {}", b.get_nine_star(), b.get_twelve_star())));
+            if x.clone().ok() != z.clone().ok() {
+              return Some((ymdhms(&t), format!("{} stars {:?}", h, x), format!("{} stars {:?}", b, z)));
+            }
           }
           None
         }) {
@@ -280,6 +285,19 @@ impl C13 {
         let exp: Vec<(i64, i64, i64)> = (i0..i1).map(|i| c.ymd(i)).collect();
         if out.wants_sample("smonth", true) {
           out.sample("smonth", true, || json!({"sexagenary_year": y, "month_index": j, "days": got.len(), "first": got.first().map(|d| fmt_ymd(*d)), "last": got.last().map(|d| fmt_ymd(*d))}));
+        }
+        // every listed item is the sexagenary day an independent construction from its civil date gives
+        if let Ok(Some((dt, listed, built))) = guard(|| {
+          for d in mo.get_days() {
+            let s = d.get_solar_day();
+            let b = tyme4rs::tyme::sixtycycle::SixtyCycleDay::from_solar_day(tyme4rs::tyme::solar::SolarDay::from_ymd(s.get_year(), s.get_month(), s.get_day()));
+            if d.to_string() != b.to_string() || d.get_sixty_cycle().get_index() != b.get_sixty_cycle().get_index() || d.get_sixty_cycle().get_index() as i64 != day_pillar(c.jdn(c.index(s.get_year() as i64, s.get_month() as i64, s.get_day() as i64).unwrap_or(0))) {
+              return Some((ymd(&s), d.to_string(), b.to_string()));
+            }
+          }
+          None
+        }) {
+          out.fail(env, viol("smonth", "listed_day_differs_from_constructed", case, &k, format!("{} in month {} of sexagenary year {} .get_days()", fmt_ymd(dt), j, y), built, listed));
         }
         if got != exp {
           out.fail(env, viol("smonth", "days", case, &k, format!("month {} of sexagenary year {} .get_days()", j, y), format!("{} days {}..{}", exp.len(), c.fmt(i0), c.fmt(i1 - 1)), format!("{} days {:?}..{:?}", got.len(), got.first().map(|d| fmt_ymd(*d)), got.last().map(|d| fmt_ymd(*d)))));
